@@ -4,10 +4,11 @@ use samyama::query::QueryEngine;
 use samyama::snapshot::{export_tenant, import_tenant, import_tenant_with_dedup};
 use std::collections::HashMap;
 
-#[path = "snap_common/gz.rs"]
-mod gz;
 fn gunzip(b: &[u8]) -> String {
-    String::from_utf8(gz::gunzip_stored(b).unwrap()).unwrap()
+    use std::io::Read;
+    let mut s = String::new();
+    flate2::read::GzDecoder::new(b).read_to_string(&mut s).unwrap();
+    s
 }
 
 fn rt(store: &GraphStore) -> (String, GraphStore, Result<(), String>) {
@@ -140,7 +141,7 @@ fn main() {
         samyama::snapshot::export_tenant_with_compression(&src, &mut buf, 0).unwrap();
         let mut text = gunzip(&buf);
         text.push_str("{\"t\":\"e\",\"id\":9,\"src\":77,\"tgt\":78,\"type\":\"R\",\"props\":{}}\n");
-        let bytes = gz::gzip_stored(text.as_bytes());
+        let bytes = { use std::io::Write; let mut gz = flate2::write::GzEncoder::new(Vec::new(), flate2::Compression::default()); gz.write_all(text.as_bytes()).unwrap(); gz.finish().unwrap() };
         let r = import_tenant_with_dedup(&mut s, std::io::Cursor::new(&bytes), &["name"]);
         println!("10 C13: result {:?} ; nodes {} edges {} props {:?} labels {:?}", r.map(|_| ()).map_err(|e| e.to_string()),
             s.all_nodes().len(), s.all_edges().len(), s.node_properties_merged(a), s.get_node(a).unwrap().labels);
